@@ -2,7 +2,7 @@
     exercise both sides of every equivalence. *)
 From Coq Require Import List Bool Arith ZArith Lia Cantor.
 Import ListNotations.
-Require Import Nib.C11.Model Nib.C11.Spec Nib.C11.Proofs Nib.C11.ProofsPreimage.
+Require Import Nib.C11.Model Nib.C11.Spec Nib.C11.Proofs Nib.C11.ProofsPreimage Nib.C11.ProofsRates.
 
 (** an injective stand-in for the hash *)
 Definition Hx (salt rates v : nat) : nat := Cantor.to_nat (salt, Cantor.to_nat (rates, v)).
@@ -176,3 +176,25 @@ Example witness_shapes_nonvacuous :
   commit_normal_reveal_raw pi_trim Hx 2 1 7 = commit_ab_reveal_ab_blank /\
   commit_raw_reveal_raw Hx 2 1 7 = commit_ab_blank_reveal_ab_blank.
 Proof. split; vm_compute; reflexivity. Qed.
+
+(* ------------------------------------------------------------------ valid vote strings *)
+
+(** pair ids: 1 = ubtc:uusd, 2 = ueth:uusd.  Commitment to a string, hash-exact reveal in window:
+    accepted when the pairs are distinct; refused (prevote kept) for abstain+priced, priced+priced,
+    abstain+abstain, non-adjacent repeats and malformed strings. *)
+Definition reveal_of (d : dup_rule) (wf : bool) (ts : list (nat * bool)) : list bool * bool :=
+  let rs := run Hx 0 all_bonded [ (1%Z, Prevote 0 0 (Hx 1 1 0) true);
+                                  (2%Z, vote_msg d 0 0 1 1 7 wf ts true) ] in
+  (map (fun x => accepted (fst x)) rs,
+   match rs with [_; (_, s)] => match prevotes s 0 with Some _ => true | None => false end | _ => false end).
+
+Example valid_rates_nonvacuous :
+  reveal_of DupAll true [(1, true); (2, true)] = ([true; true], false) /\
+  reveal_of DupAll true [(1, false); (1, true)] = ([true; false], true) /\
+  reveal_of DupAll true [(1, true); (1, false)] = ([true; false], true) /\
+  reveal_of DupAll true [(1, false); (1, false)] = ([true; false], true) /\
+  reveal_of DupAll true [(1, true); (2, true); (1, false)] = ([true; false], true) /\
+  reveal_of DupAll false [(1, true)] = ([true; false], true) /\
+  reveal_of DupPricedOnly true [(1, false); (1, true)] = ([true; true], false) /\
+  reveal_of DupPricedOnly true [(1, true); (1, true)] = ([true; false], true).
+Proof. repeat split; vm_compute; reflexivity. Qed.
